@@ -53,6 +53,21 @@ var relKinds = []string{"image", "image", "imagefile", "cellimg", "header", "foo
 var relCreating = map[string]bool{"image": true, "imagefile": true, "cellimg": true, "header": true, "footer": true, "headerpn": true, "footerpn": true,
 	"fheader": true, "ffooter": true, "footnote": true, "endnote": true, "notecfg": true, "listitem": true, "bullet": true, "numbered": true, "celllist": true, "tpldoc": true, "tpldoc2": true, "md": true}
 
+// edge-argument calls (ops/c02_extra.go): calls the API rejects or may reject; expanded by weight
+var edgeKinds = func() []string {
+	var out []string
+	for _, k := range []string{"ximage", "ximagefile", "xcellimg", "xhf", "xlist", "xnote", "xtplfail", "xsave", "xprops"} {
+		for i := 0; i < ops.C02Weights[k]; i++ {
+			out = append(out, k)
+		}
+	}
+	return out
+}()
+
+func edgeOp(t *rapid.T) ops.Op {
+	return cfg.C02Op(t, rapid.SampledFrom(edgeKinds).Draw(t, "edgekind"))
+}
+
 // fix makes more of the drawn ops land: tables with at least one cell, cell images inside the table.
 func fix(t *rapid.T, o ops.Op) ops.Op {
 	switch o.K {
@@ -79,6 +94,10 @@ func history(t *rapid.T, min, max int) []ops.Op {
 	n := rapid.IntRange(min, max).Draw(t, "nops")
 	out := make([]ops.Op, 0, n+4)
 	for i := 0; i < n; i++ {
+		if rapid.IntRange(0, 7).Draw(t, "edge") == 0 {
+			out = append(out, edgeOp(t))
+			continue
+		}
 		out = append(out, fix(t, cfg.Op(t)))
 	}
 	return out
@@ -87,7 +106,21 @@ func history(t *rapid.T, min, max int) []ops.Op {
 // scenario: short sequences in which several calls have to cooperate
 func scenario(t *rapid.T) []ops.Op {
 	var out []ops.Op
-	switch rapid.IntRange(0, 10).Draw(t, "scn") {
+	switch rapid.IntRange(0, 14).Draw(t, "scn") {
+	case 11: // a rejected / edge image call between valid ones, saved, cycled and extended
+		out = append(out, cfg.OpOf(t, "image"), cfg.C02Op(t, rapid.SampledFrom([]string{"ximage", "ximage", "ximagefile"}).Draw(t, "xk")), cfg.OpOf(t, "image"),
+			cfg.OpOf(t, "reopen"), cfg.OpOf(t, "image"))
+	case 12: // the same inside a table
+		tb := cfg.OpOf(t, "table")
+		tb.I[0], tb.I[1], tb.I[2], tb.Grid = 2, 2, 9000, nil
+		ci := cfg.OpOf(t, "cellimg")
+		ci.I[1], ci.I[2] = 0, 1
+		out = append(out, tb, cfg.C02Op(t, "xcellimg"), ci, cfg.C02Op(t, "xcellimg"), cfg.OpOf(t, "reopen"), cfg.OpOf(t, "image"))
+	case 13: // a template render that fails half-way; the caller goes on with the template document
+		out = append(out, cfg.OpOf(t, "image"), cfg.OpOf(t, "header"), cfg.C02Op(t, "xtplfail"), cfg.OpOf(t, "image"), cfg.OpOf(t, "tpldoc"), cfg.OpOf(t, "image"))
+	case 14: // header/footer/list/note calls with arguments outside the defined ones next to valid ones
+		out = append(out, cfg.OpOf(t, "header"), cfg.C02Op(t, "xhf"), cfg.C02Op(t, rapid.SampledFrom([]string{"xlist", "xnote", "xhf", "xsave"}).Draw(t, "xk")), cfg.OpOf(t, "footer"),
+			cfg.OpOf(t, "reopen"), cfg.C02Op(t, "xhf"), cfg.OpOf(t, "image"))
 	case 0: // template image placeholder rendered from the current document
 		out = append(out, ops.Op{K: "para", S: []string{"{{#image p}}"}, Cls: []string{"img-placeholder"}})
 		if rapid.Bool().Draw(t, "two") {
@@ -193,6 +226,9 @@ func genCase(t *rapid.T) Case {
 		for i, n := 0, rapid.IntRange(1, 4).Draw(t, "nrel"); i < n; i++ {
 			c.Ops = append(c.Ops, fix(t, cfg.OpOf(t, rapid.SampledFrom(relKinds).Draw(t, "relk"))))
 		}
+		if rapid.IntRange(0, 2).Draw(t, "preedge") == 0 {
+			c.Ops = append(c.Ops, edgeOp(t))
+		}
 		if rapid.IntRange(0, 3).Draw(t, "prescn") == 0 {
 			c.Ops = append(c.Ops, scenario(t)...)
 		}
@@ -200,6 +236,9 @@ func genCase(t *rapid.T) Case {
 		c.Post = history(t, 0, kit.Scale(8, 16))
 		for i, n := 0, rapid.IntRange(0, 3).Draw(t, "npost"); i < n; i++ {
 			c.Post = append(c.Post, fix(t, cfg.OpOf(t, rapid.SampledFrom(relKinds).Draw(t, "relk"))))
+		}
+		if rapid.IntRange(0, 2).Draw(t, "postedge") == 0 {
+			c.Post = append(c.Post, edgeOp(t), fix(t, cfg.OpOf(t, rapid.SampledFrom(relKinds).Draw(t, "relk"))))
 		}
 		if rapid.IntRange(0, 3).Draw(t, "postscn") == 0 {
 			c.Post = append(c.Post, scenario(t)...)
@@ -330,7 +369,7 @@ func (r *runner) runOps(list []ops.Op, phase string) {
 		}
 		at := fmt.Sprintf("%s op %d", phase, i)
 		switch op.K {
-		case "reopen", "tpldoc", "tpldoc2", "tplstr", "md":
+		case "reopen", "tpldoc", "tpldoc2", "tplstr", "md", "xtplfail":
 			// last look at the document object that is about to be replaced
 			r.saveNow(at + " (before " + op.K + ")")
 			if r.dead {
@@ -340,8 +379,20 @@ func (r *runner) runOps(list []ops.Op, phase string) {
 		if mentionsImagePlaceholder(op) {
 			placeholder = true
 		}
+		docBefore := r.x.Doc
 		var err error
-		if p, _ := kit.Try(func() { err = r.x.Do(op) }); p != nil {
+		edge := ops.IsC02(op.K)
+		name := op.K
+		if edge {
+			name = op.K + "/" + ops.C02Variant(op)
+		}
+		if p, _ := kit.Try(func() {
+			if edge {
+				err = r.x.DoC02(op)
+			} else {
+				err = r.x.Do(op)
+			}
+		}); p != nil {
 			r.res.Count("panic:"+op.K, 1) // a panicking call is C01.P0's finding; the state is undefined afterwards
 			r.res.Label("panic")
 			r.shape = append(r.shape, op.K+":panic")
@@ -352,7 +403,37 @@ func (r *runner) runOps(list []ops.Op, phase string) {
 		if err != nil {
 			e = "err"
 		}
-		r.shape = append(r.shape, op.K+":"+e)
+		r.shape = append(r.shape, name+":"+e)
+		if edge {
+			r.res.Label("edge-call")
+			r.res.Label("edge:" + op.K)
+			r.res.Count("edge_calls", 1)
+			if err != nil {
+				r.res.Label("edge-call:returned-error")
+				r.res.Label("rejected:" + op.K)
+				r.res.Count("edge_calls_returned_error", 1)
+			} else {
+				r.res.Label("edge-call:accepted")
+				r.res.Count("edge_calls_accepted", 1)
+			}
+			if op.K == "xtplfail" && r.x.Doc != docBefore {
+				r.base = nil // the render went through after all (or was repeated with good data): a new document
+				r.res.Label("failed-render-then-rendered-again")
+			}
+		}
+		if err != nil && op.K != "reopen" {
+			// the call was rejected: the property speaks of EVERY saved package, so the document saved right after a
+			// rejected call must be as consistent as any other (a rejected call must not leave half of its effect behind)
+			r.res.Count("calls_returned_error", 1)
+			r.res.Label("call-returned-error")
+			if r.saveNow(at+" (right after "+name+" returned an error)") != nil {
+				r.res.Count("packages_judged_right_after_error", 1)
+				r.res.Label("saved-right-after-rejected-call")
+			}
+			if r.dead {
+				return
+			}
+		}
 		if err == nil {
 			switch op.K {
 			case "cellimg":
@@ -513,14 +594,17 @@ func selfCheck(res *kit.Result, fb []byte) (*opc.Package, bool) {
 func TestC02(t *testing.T) {
 	kit.Main(t, kit.Spec[Case]{
 		ID: "C02", Level: "exploration",
-		Rule: "history of generated API calls weighted to relationship-creating calls (images in body and table cells, template image placeholders, headers/footers, lists, notes, note settings, properties) with save / reopen / template-render cycles in between; in half of the cases the saved package is rewritten by independent code into a foreign package (arbitrary, non-contiguous, non-rId relationship ids with a hole at count+2 or count+2 taken, styles relationship not rId1 / last / absent, external hyperlink, extra parts, header with its own relationship part, root with property relationships), opened and extended by a second history; every package saved on the way is judged, and the documents that were replaced as the current one (template bases, first of two renders, documents before a reopen) are saved and judged at the end of the phase. non-trivial = some judged package has >=3 relationships besides styles, or the document was opened with non-dense ids and a later save has more relationships than the opened package; distinct = distinct sequence of (op kind, outcome) plus the facts of the foreign rewrite",
+		Rule: "history of generated API calls weighted to relationship-creating calls (images in body and table cells, template image placeholders, headers/footers, lists, notes, note settings, properties) with save / reopen / template-render cycles in between; in half of the cases the saved package is rewritten by independent code into a foreign package (arbitrary, non-contiguous, non-rId relationship ids with a hole at count+2 or count+2 taken, styles relationship not rId1 / last / absent, external hyperlink, extra parts, header with its own relationship part, root with property relationships), opened and extended by a second history; one op in eight is a call with EDGE ARGUMENTS that the API rejects or may reject (nil / empty / undecodable / truncated image data, unknown or wrong declared format, missing / empty / non-image file or a directory, cell position outside the table, nil table, header/footer type strings outside default/first/even, nil configurations, list kinds and levels outside the defined ones, removal of unknown notes, template renders that fail half-way and are optionally repeated with repaired data, nil document properties, Save to a path that cannot be created), labelled by kind and counted by whether it really returned an error; the current document is saved and judged right after EVERY call that returned an error; every package saved on the way is judged, and the documents that were replaced as the current one (template bases, first of two renders, documents before a reopen) are saved and judged at the end of the phase. non-trivial = some judged package has >=3 relationships besides styles, or the document was opened with non-dense ids and a later save has more relationships than the opened package; distinct = distinct sequence of (op kind, outcome) plus the facts of the foreign rewrite",
 		Gen:  genCase, Run: run, Findings: findings, Fixed: fixedCases,
 		Assumptions: []string{
 			"relationship parts, targets and sources are read by the harness's own OPC reader; references are the attributes in the officeDocument relationships namespace found by an encoding/xml token scan of the main document and of the header/footer/notes parts it names",
 			"the foreign package is derived from a library-produced one by textual rewriting (ids, references, extra parts); it is itself checked against R1-R4 before it is opened, and discarded (counted) if it does not pass",
 			"a package that is ill-formed or has no unique main part is left to C01; a call that panics ends the history (C01.P0)",
+			"whether an edge-argument call is rejected or accepted is not judged (the statement is silent on it): only the packages saved afterwards are, by the same R1-R5 as every other package",
 		},
 		MustSee: map[string]float64{"foreign:hole-at-len+2": 0.03, "foreign:len+2-taken": 0.05, "foreign:styles-not-rId1": 0.1, "image-in-table-cell": 0.15, "notes/settings-added": 0.3,
-			"opened-nondense-then-extended": 0.1, "tpl-image-placeholder": 0.03, "two-renders-shared-templatedata": 0.05, "side-document-judged": 0.3, "reopen": 0.3, "foreign:non-rId-ids": 0.05, "foreign:external-hyperlink": 0.05},
+			"opened-nondense-then-extended": 0.1, "tpl-image-placeholder": 0.03, "two-renders-shared-templatedata": 0.05, "side-document-judged": 0.3, "reopen": 0.3, "foreign:non-rId-ids": 0.05, "foreign:external-hyperlink": 0.05,
+			"edge-call:returned-error": 0.25, "edge-call:accepted": 0.25, "saved-right-after-rejected-call": 0.3, "edge:ximage": 0.15, "edge:xcellimg": 0.08, "edge:xtplfail": 0.08,
+			"rejected:ximagefile": 0.05, "edge:xhf": 0.05},
 	})
 }
